@@ -52,7 +52,7 @@ def main : IO Unit := do
     for h in List.range 256 do
       for ts in [0, 0x10000000, 0x1000001F, 0xFFFFFFF0, 0xFFFFFFFF] do
         let o := Go.decoder.decodeMessageData_timestamp lo ts h
-        let m := Fit.Wire.decompressHdr ⟨[], ts, lo⟩ h
+        let m := Fit.Wire.decompressHdr ⟨[], ts, lo, []⟩ h
         if (o.d_timestamp != m.1.timestamp || o.d_lastTimeOffset != m.1.lastOff) && n < 5 then
           n := n + 1
           IO.println s!"DIFF decodeMessageData_timestamp lastTimeOffset={lo} timestamp={ts} header={h} go=({o.d_timestamp},{o.d_lastTimeOffset}) model=({m.1.timestamp},{m.1.lastOff}) op=-"
